@@ -29,8 +29,14 @@ St(fs) == [k |-> "st", f |-> fs]
 EmbA == St(<<Fld("none", "A", "A", [k |-> "i8"]), Fld("none", "B", "B", [k |-> "str"])>>)
 EmbT == St(<<Fld("ren", "A", "A", [k |-> "i8"]), Fld("ren", "B", "b", [k |-> "str"])>>)
 
+\* ---- big structs: the field lookup at scale (hash table instead of a linear scan, long key lists, case-insensitive fallback) ----
+BigNames == <<"F00", "F01", "F02", "F03", "F04", "F05", "F06", "F07", "F08", "F09", "F10", "F11", "F12", "F13", "F14", "F15", "F16", "F17", "F18", "F19", "F20", "F21", "F22", "F23", "F24", "F25", "F26", "F27", "F28", "F29", "F30", "F31", "F32", "F33", "F34", "F35", "F36", "F37", "F38", "F39", "F40", "F41", "F42", "F43", "F44", "F45", "F46", "F47", "F48", "F49", "F50", "F51", "F52", "F53", "F54", "F55", "F56", "F57", "F58", "F59", "F60", "F61", "F62", "F63", "F64", "F65", "F66", "F67", "F68", "F69", "F70", "F71", "F72", "F73", "F74", "F75", "F76", "F77", "F78", "F79", "F80", "F81", "F82", "F83", "F84", "F85", "F86", "F87", "F88", "F89", "F90", "F91", "F92", "F93", "F94", "F95", "F96", "F97", "F98", "F99">>
+BigSizes == {1, 7, 8, 9, 16, 17, 32, 33, 64, 100}
+BigStruct(n) == St([i \in 1..n |-> Fld("none", BigNames[i], BigNames[i], IF i % 4 = 0 THEN [k |-> "str"] ELSE [k |-> "int"])])
+
 Types ==
   CASE Fam = "leaf" -> Leaf
+    [] Fam = "bigst" -> {BigStruct(n) : n \in BigSizes}
     [] Fam = "mapkeys" -> {[k |-> "map", key |-> kk, e |-> t] : kk \in AllKeyKinds, t \in {[k |-> "int"], [k |-> "str"]}}   \* every key parser, always in the quick tier
     [] Fam = "wrap1" -> WrapK(Leaf, AllKeyKinds)        \* every key kind: each has its own key parser
     [] Fam = "wrap2" -> Wrap(Wrap(LeafR))
@@ -49,8 +55,6 @@ Types ==
                        \cup {[k |-> "iface"], [k |-> "map", key |-> "str", e |-> [k |-> "iface"]]}
 
 TypeSeq == SetToSeq(Types)
-MyTypes == {TypeSeq[i] : i \in {x \in 1..Len(TypeSeq) : x % NParts = Part}}
-
 \* ---- documents ----
 N(c) == [j |-> "n", c |-> c]
 S(c) == [j |-> "s", c |-> c]
@@ -101,7 +105,26 @@ Perturb(Jd, depth) ==
                                       Obj(Jd.m \o <<KV("Z", [j |-> "xs", c |-> "xnone"])>>)} ELSE {})
      [] OTHER -> {})
 
-DocsFor(t) == {Match(t)} \cup Perturb(Match(t), 0)
+BigVal(t, i) == IF t.f[i].t.k = "str" THEN S(IF i % 8 = 0 THEN "sx" ELSE "s12") ELSE N(IF i % 3 = 0 THEN "p7" ELSE IF i % 3 = 1 THEN "p12" ELSE "p300")
+Lower(nm) == CASE nm = "F00" -> "f00" [] nm = "F06" -> "f06" [] nm = "F07" -> "f07" [] nm = "F16" -> "f16" [] nm = "F63" -> "f63" [] nm = "F99" -> "f99" [] OTHER -> nm
+BigDocs(t) ==
+  LET n == Len(t.f)
+      all == [i \in 1..n |-> KV(t.f[i].jn, BigVal(t, i))]
+      rev == [i \in 1..n |-> all[n + 1 - i]]
+      mid == (n + 1) \div 2
+  IN {Obj(all), Obj(rev), Obj(<<all[n]>>), Obj(<<all[1]>>), Obj(<<all[mid]>>),
+      Obj([i \in 1..n |-> KV(Lower(all[i].k), all[i].v)]),                                   \* case variants where the table has one
+      Obj(SubSeq(all, 1, mid) \o <<KV("F_x", Arr(<<N("p7")>>))>> \o SubSeq(all, mid + 1, n)),      \* an unknown key in the middle
+      Obj(all \o <<KV(all[1].k, BigVal(t, (1 % n) + 1))>>), Obj(<<KV(all[n].k, BigVal(t, (1 % n) + 1))>> \o all),    \* duplicates: the last occurrence wins
+      Obj(all \o <<KV("F_x", [j |-> "x", c |-> "x01"])>>),
+      Obj([i \in 1..n |-> KV(all[i].k, IF i = mid THEN Null ELSE all[i].v)]),
+      Obj([i \in 1..n |-> KV(all[i].k, IF i = n THEN (IF t.f[i].t.k = "str" THEN N("p7") ELSE S("sx")) ELSE all[i].v)])}   \* a mismatch in the last field
+
+MyTypes == {TypeSeq[i] : i \in {x \in 1..Len(TypeSeq) : x % NParts = Part}}
+
+
+
+DocsFor(t) == IF Fam = "bigst" THEN BigDocs(t) ELSE {Match(t)} \cup Perturb(Match(t), 0)
 
 RECURSIVE HasIface(_)
 HasIface(t) == CASE t.k = "iface" -> TRUE
